@@ -106,10 +106,44 @@ type rendezStore struct {
 	armed   bool
 	waiting int
 	ch      chan struct{}
+	// holdSave
+	holdIP   netip.Addr
+	holdHeld chan struct{}
+	holdRel  chan struct{}
 }
 
 func newRendezStore(s storage.Storage) *rendezStore {
 	return &rendezStore{Storage: s}
+}
+
+// holdSave makes the next SaveRouter for ip wait (at most two seconds) until release is called;
+// held is closed when the save has arrived.  No lock of the router is held at that point on any
+// path the harness uses it for, so whatever another worker does meanwhile is a legal interleaving.
+func (r *rendezStore) holdSave(ip netip.Addr) (held <-chan struct{}, release func()) {
+	h, rel := make(chan struct{}), make(chan struct{})
+	var once sync.Once
+	r.mu.Lock()
+	r.holdIP, r.holdHeld, r.holdRel = ip, h, rel
+	r.mu.Unlock()
+	return h, func() { once.Do(func() { close(rel) }) }
+}
+
+func (r *rendezStore) SaveRouter(sr *storage.StoredRouter) error {
+	r.mu.Lock()
+	var held, rel chan struct{}
+	if sr != nil && sr.Address != nil && r.holdHeld != nil && sr.Address.IP == r.holdIP {
+		held, rel = r.holdHeld, r.holdRel
+		r.holdHeld, r.holdRel = nil, nil
+	}
+	r.mu.Unlock()
+	if held != nil {
+		close(held)
+		select {
+		case <-rel:
+		case <-time.After(2 * time.Second):
+		}
+	}
+	return r.Storage.SaveRouter(sr)
 }
 
 func (r *rendezStore) arm(on bool) {
